@@ -385,6 +385,78 @@ func (e *exec) recv(late bool, ref string, data []byte) string {
 	return out
 }
 
+// recvOver: two overlapping ReceiveBlob calls of the same blob. A passes the duplicate check and hangs
+// in the wrapped blobs store (which has not read its source yet); B runs from start to end; A resumes.
+func (e *exec) recvOver(ref string, data []byte) string {
+	e.labels = append(e.labels, ref)
+	if _, ok := e.plain[ref]; !ok {
+		e.plain[ref] = data
+	}
+	if !e.up {
+		return "down"
+	}
+	br, ok := blob.Parse(ref)
+	if !ok {
+		return "badref"
+	}
+	n := 0
+	e.w.meta.mu.Lock()
+	e.w.meta.onRecv = func() {
+		n++
+		if n == 1 {
+			e.w.kv.metaWritten(false)
+		}
+	}
+	e.w.meta.mu.Unlock()
+	one := func() string {
+		return hk.Guard(func() string {
+			sb, err := e.w.sto.ReceiveBlob(ctxbg, br, bytes.NewReader(data))
+			if err != nil {
+				return classify(err)
+			}
+			if sb.Ref != br {
+				return "err"
+			}
+			return fmt.Sprintf("ok %d", sb.Size)
+		})
+	}
+	st := &stallCtl{make(chan struct{}), make(chan struct{}), make(chan struct{})}
+	e.w.blobs.mu.Lock()
+	e.w.blobs.stall = st
+	e.w.blobs.mu.Unlock()
+	doneA := make(chan string, 1)
+	go func() { doneA <- one() }()
+	var outA, outB string
+	select {
+	case outA = <-doneA:
+		// A did not reach the wrapped store (a duplicate): nothing overlaps
+		e.w.blobs.mu.Lock()
+		e.w.blobs.stall = nil
+		e.w.blobs.mu.Unlock()
+		outB = one()
+	case <-st.entered:
+		outB = one()
+		e.w.kv.release()
+		if !e.w.quiesceBut(1) {
+			outB = "hang"
+		}
+		n = 0
+		close(st.release)
+		outA = <-doneA
+	}
+	e.w.kv.release()
+	e.w.meta.mu.Lock()
+	e.w.meta.onRecv = nil
+	e.w.meta.mu.Unlock()
+	if !e.w.quiesce() {
+		return "hang"
+	}
+	if strings.HasPrefix(outA, "ok") || strings.HasPrefix(outB, "ok") {
+		e.acked[ref] = true
+	}
+	return outA + " " + outB
+}
+
 // fetchRaw fetches through sto: (bytes, size, class).
 func fetchRaw(sto blobserver.Storage, ref string) ([]byte, uint32, string) {
 	br, ok := blob.Parse(ref)
@@ -570,6 +642,15 @@ func (e *exec) do(ws []string) string {
 			return "bad-op"
 		}
 		return e.recv(ws[0] == "recvlate", blob.RefFromBytes(b).String(), b)
+	case "recvover":
+		if len(ws) < 2 {
+			return "bad-op"
+		}
+		b, ok := e.segs(ws[1:])
+		if !ok {
+			return "bad-op"
+		}
+		return e.recvOver(blob.RefFromBytes(b).String(), b)
 	case "recvas":
 		if len(ws) < 3 {
 			return "bad-op"
@@ -685,12 +766,18 @@ func (e *exec) do(ws []string) string {
 		dst.plant(blob.RefFromBytes(c).String(), c)
 		return "ok"
 	case "fault":
-		if len(ws) != 3 || !(ws[1] == "E" || ws[1] == "M") || !allDigits(ws[2]) {
+		if len(ws) != 3 || !(ws[1] == "E" || ws[1] == "M" || ws[1] == "I") || !allDigits(ws[2]) {
 			return "bad-op"
 		}
 		k, err := strconv.Atoi(ws[2])
 		if err != nil {
 			return "bad-op"
+		}
+		if ws[1] == "I" {
+			e.w.kv.mu.Lock()
+			e.w.kv.failSetAt = k
+			e.w.kv.mu.Unlock()
+			return "ok"
 		}
 		st := e.w.blobs
 		if ws[1] == "M" {
